@@ -220,7 +220,25 @@ pub fn exec_fault(cfg: &Config, fc: &FaultCase, record_probes: bool) -> FaultRun
         let c = fc.plan.corrupt;
         let tc = tap_count.clone();
         let positions = fc.tap_positions.clone();
+        let (site, mode) = match site.split_once('#') { Some((a, b)) => (a.to_string(), b.to_string()), None => (site, String::new()) };
         crate::hooks::install_tap(Some(Box::new(move |s, party, idx, value| {
+            if party == Some(c) && s == site && site == "garble.row_plain" && (index == usize::MAX || index == idx) && value.len() >= 25 {
+                // serialized (bit, Vec<Mac>, Label): [bit][u64 len][len * 16][16]; the row is re-built with
+                // the bit flipped, the label share shifted by the garbler's own global key (so that later
+                // gates and the label check stay consistent) and the MAC list cut to `keep` entries
+                let len = u64::from_le_bytes(value[1..9].try_into().unwrap()) as usize;
+                let keep: usize = match mode.as_str() { "nomac" => 0, "onemac" => 1, _ => len };
+                if value.len() == 9 + 16 * len + 16 && keep <= len {
+                    if let Some(delta) = crate::hooks::delta_of(c) {
+                        let label = u128::from_le_bytes(value[9 + 16 * len..9 + 16 * len + 16].try_into().unwrap()) ^ delta;
+                        value[0] ^= 1;
+                        value[1..9].copy_from_slice(&(keep as u64).to_le_bytes());
+                        value[9 + 16 * keep..9 + 16 * keep + 16].copy_from_slice(&label.to_le_bytes());
+                        tc.set(tc.get() + 1);
+                    }
+                }
+                return;
+            }
             if party == Some(c) && s == site && (index == usize::MAX || index == idx) && !value.is_empty() {
                 let mut any = false;
                 for p in &positions {
